@@ -20,7 +20,7 @@ from . import common
 
 ID = 'C20'
 LEVEL = 'exploration'
-RUNS = {'quick': 12000, 'thorough': 300000}
+RUNS = {'quick': 60000, 'thorough': 400000}
 SIM_TIME_UNIT = 'samples'
 RULE = ('seeded generation of (sorted specification without since/until, trace of 1..8 samples); for a violated trace the fault '
         'corrupt_unreported is injected 24 times (4 adversarial patterns, 2 per predicate threshold, the rest random lattice '
@@ -168,7 +168,13 @@ def _gen(rng):
     if rng.random() < 0.2:
         nw = n if (rng.random() < 0.5 and n <= 12) else rng.randint(1, 8)
         warm = {'n': nw, 'data': world.gen_trace(rng, vars_, nw)}
-    return {'vars': vars_, 'ast': ast, 'n': n, 'data': data, 'rnd': rnd, 'modular': modular, 'warm': warm}
+    other = None
+    if rng.random() < 0.15:
+        # a second requirement object of the same process evaluates and explains ANOTHER log after this object's explain() and
+        # before this object's explanations are read
+        no = rng.randint(1, 8)
+        other = {'n': no, 'data': world.gen_trace(rng, vars_, no)}
+    return {'vars': vars_, 'ast': ast, 'n': n, 'data': data, 'rnd': rnd, 'modular': modular, 'warm': warm, 'other': other}
 
 
 def reported_positions(expl, vars_, n):
@@ -260,6 +266,16 @@ def run(sc):
         rho0 = out[0][1]
         M.api('explain', spec.explain)
         r.api_calls += 1
+        if sc.get('other'):
+            o = sc['other']
+            try:
+                eval_discrete(ast, o['data'], o['n'])
+                spec_b = M.build(desc)
+                M.dt_evaluate(spec_b, list(range(o['n'])), o['data'])
+                M.api('explain', spec_b.explain)
+                r.faults['another_object_explained_in_between'] += 1
+            except RefError:
+                pass
         expl = dict(spec.explainer.explanations)
     except M.ApiCrash as e:
         r.crashes[e.exc_type] += 1
@@ -322,6 +338,10 @@ def shrinks(sc):
     if sc.get('warm'):
         c = dict(sc)
         c['warm'] = None
+        yield c
+    if sc.get('other'):
+        c = dict(sc)
+        c['other'] = None
         yield c
     for c in common.shrink_discrete(sc):
         a = c['ast']
